@@ -342,33 +342,55 @@ func VH_C09_Retry(z int) {
 }
 
 // VH_C09_RealSize: the reader at its real buffer size (run without the
-// reduced-buffer overlay): a first line of length total around the buffer size
-// and its multiples, two bytes near the buffer boundary being either ordinary
-// bytes or newlines, delivered whole or in chunks, followed by a short line. The
-// lines returned are the stream cut at its newlines.
+// reduced-buffer overlay): a stream of total bytes with distinct neighbouring
+// content whose only certain newline is the last byte before a short tail; each
+// byte at nl symbolic positions around the first buffer boundary (16381..16386)
+// and around the second (32766..32769) is either its ordinary value or a
+// newline, so lines of every length 16382..16387 (and sums with the following
+// ones) arise; delivered whole or in chunks. The lines returned are the stream
+// cut at its newlines.
 //
 //verif:prop C09
 //verif:realsize
-//verif:param total 16382..16386,32767..32769,49153
+//verif:param total 16382..16388,32767..32770,49153
 //verif:param chunk 0,16384,4096,1000
+//verif:param nl quick=0..2 thorough=0..3
 //verif:maxsteps 400000000
-func VH_C09_RealSize(total, chunk int) {
+//verif:maxdec 200000
+func VH_C09_RealSize(total, chunk, nl int) {
 	data := make([]byte, 0, total+5)
 	for i := 0; i < total-1; i++ {
-		data = append(data, 'x')
+		data = append(data, byte('a'+i%23))
 	}
 	data = append(data, '\n')
 	data = append(data, []byte("tail\n")...)
-	// two symbolic bytes around the first buffer boundary
-	data[16381] = vChoose("b16381", "x\n")
-	if total > 16385 {
-		data[16384] = vChoose("b16384", "x\n")
+	// symbolic newline positions around the buffer boundaries
+	var cand [][]int
+	switch nl {
+	case 0:
+		cand = [][]int{{16381, 16384}}
+	case 1:
+		cand = [][]int{{16382, 16383}, {16385}}
+	case 2:
+		cand = [][]int{{16380, 16386}, {32766, 32768}}
+	default:
+		cand = [][]int{{16383, 16384, 16385}, {32767, 32769}}
+	}
+	for _, grp := range cand {
+		for _, p := range grp {
+			if p < total-1 {
+				data[p] = byte(vIte(vBool("nl"), '\n', int(data[p])))
+			}
+		}
 	}
 	f := &vhFeeder{data: data, chunk: chunk}
 	r := &reader{rd: f}
 	pos := 0
-	for iter := 0; iter < 8; iter++ {
+	for iter := 0; iter < 10; iter++ {
 		d, err := r.readLine()
+		// case split on the buffer indices (identity natively): the next call
+		// starts from concrete indices instead of a guarded value set
+		r.r, r.w = vConcretize(r.r), vConcretize(r.w)
 		// expected: up to and including the next newline
 		end := pos
 		for end < len(data) {
@@ -385,7 +407,7 @@ func VH_C09_RealSize(total, chunk int) {
 			}
 			vAssert(same, "line content reproduces the stream")
 		}
-		pos += len(d)
+		pos = vConcretize(pos + len(d))
 		if err != nil {
 			vAssert(err == io.EOF && pos == len(data), "EOF after the whole stream")
 			break
